@@ -17,6 +17,11 @@
  * MODE 4: nni_pipe_remove: the pipe leaves the socket's and the endpoint's lists; if it was its dialer's current pipe
  *   the dialer forgets it and a redial is scheduled (WHOSE 0); a pipe that is not the dialer's current one (WHOSE 1)
  *   or belongs to a listener (WHOSE 2) schedules nothing; a closing socket is woken.
+ * MODE 5: nng_pipe_notify registration (real nni_sock_set_pipe_cb) against the event filter: NREG arbitrary calls
+ *   (ANY event number incl. invalid ones, callback or NULL) before a pipe is born, one more deregistration in the middle
+ *   of its life: exactly the events that have a callback registered when they happen are delivered (in order, once each,
+ *   with the argument registered for that event); removing the callback of ONE event never silences the others, an
+ *   invalid event number changes nothing.
  */
 #include "env_aio.h"
 #include "core/socket.c"
@@ -81,10 +86,68 @@ my_pipe_start(void *a)
 	return start_rv;
 }
 #endif
+#if MODE == 5
+static int argtag[4];
+static int got_arg_ok = 1;
+static void
+my_cb5(nng_pipe p, nng_pipe_ev ev, void *arg)
+{
+	if (arg != &argtag[ev & 3])
+		got_arg_ok = 0;
+	my_cb(p, ev, arg);
+}
+#endif
 void
 harness(void)
 {
-#if MODE == 1
+#if MODE == 5
+	int reg[4] = { 0, 0, 0, 0 };
+	nni_mtx_init(&S.s_pipe_cbs_mtx);
+	P.p_sock       = &S;
+	P.p_id         = 5;
+	P.p_last_event = NNG_PIPE_EV_NONE;
+	last_ev        = -1;
+	for (int i = 0; i < NREG; i++) {
+		int  ev = ND(vint);
+		bool on = ND(vbool);
+		ASSUME(ev >= -1 && ev <= 4);
+		nni_sock_set_pipe_cb(&S, ev, on ? my_cb5 : NULL, on ? &argtag[ev & 3] : NULL);
+		if (ev > NNG_PIPE_EV_NONE && ev < NNG_PIPE_EV_NUM)
+			reg[ev] = on;
+	}
+	int any_at_birth = reg[NNG_PIPE_EV_ADD_PRE] || reg[NNG_PIPE_EV_ADD_POST] || reg[NNG_PIPE_EV_REM_POST];
+	nni_pipe_run_cb(&P, NNG_PIPE_EV_ADD_PRE);
+	CHECK(seen[NNG_PIPE_EV_ADD_PRE] == (reg[NNG_PIPE_EV_ADD_PRE] ? 1 : 0), "ADD_PRE is delivered iff a callback is registered for it");
+	CHECK(seen[NNG_PIPE_EV_ADD_POST] == 0 && seen[NNG_PIPE_EV_REM_POST] == 0, "nothing else is delivered at ADD_PRE");
+	{
+		/* the application drops the callback of one event while the pipe is alive */
+		int ev = ND(vint);
+		ASSUME(ev >= NNG_PIPE_EV_ADD_PRE && ev <= NNG_PIPE_EV_REM_POST);
+		bool doit = ND(vbool);
+		if (doit) {
+			nni_sock_set_pipe_cb(&S, ev, NULL, NULL);
+			reg[ev] = 0;
+			WITNESS("deregistered mid-life");
+		}
+	}
+	nni_pipe_run_cb(&P, NNG_PIPE_EV_ADD_POST);
+	if (reg[NNG_PIPE_EV_ADD_POST] && any_at_birth) {
+		CHECK(seen[NNG_PIPE_EV_ADD_POST] == 1, "ADD_POST is delivered to its registered callback whatever happened to the callbacks of other events");
+		WITNESS("ADD_POST delivered");
+	}
+	if (!reg[NNG_PIPE_EV_ADD_POST])
+		CHECK(seen[NNG_PIPE_EV_ADD_POST] == 0, "an event without a registered callback is not delivered");
+	nni_pipe_run_cb(&P, NNG_PIPE_EV_REM_POST);
+	if (reg[NNG_PIPE_EV_REM_POST] && any_at_birth) {
+		CHECK(seen[NNG_PIPE_EV_REM_POST] == 1, "REM_POST is delivered to its registered callback whatever happened to the callbacks of other events");
+		WITNESS("REM_POST delivered");
+	}
+	if (!reg[NNG_PIPE_EV_REM_POST])
+		CHECK(seen[NNG_PIPE_EV_REM_POST] == 0, "an event without a registered callback is not delivered");
+	CHECK(order_ok && got_arg_ok, "in order, each with the argument registered for that event");
+	CHECK(seen[NNG_PIPE_EV_ADD_PRE] <= 1 && seen[NNG_PIPE_EV_ADD_POST] <= 1 && seen[NNG_PIPE_EV_REM_POST] <= 1, "each at most once");
+	CHECK(env_locks_held == 0, "no lock held");
+#elif MODE == 1
 	nni_mtx_init(&S.s_pipe_cbs_mtx);
 	S.s_want_evs = true;
 	for (int e = 0; e < NNG_PIPE_EV_NUM; e++)
